@@ -46,6 +46,9 @@ ALLOWED_SUBST = {
                   "unused"),
     "tid_lifetime": (r"\s*\+\s*TidAble<'a>", "", "`T: CustomState<'a> + TidAble<'a>` -> `T: CustomState<'a>` (better_any bound has no verification content)"),
     "drop_lifetimes_a": (r"<'a>", "", "explicit lifetime argument <'a> dropped on mirrored traits without lifetime parameter"),
+    "iter_named_self0": (r"\bfor\s+(\w+)\s+in\s+&self\.0\b", r"for \1 in it: self.0.iter()",
+                         "`for x in &self.0` -> `for x in it: self.0.iter()` (same desugaring: <&Vec as IntoIterator>::into_iter "
+                         "== iter(); `it:` is Verus' ghost name for the iterator)"),
     "iter_ref_vec": (r"\bfor\s+(\w+)\s+in\s+&self\.0\b", r"for \1 in self.0.iter()",
                      "`for x in &self.0` -> `for x in self.0.iter()` (same desugaring: <&Vec as IntoIterator>::into_iter == iter())"),
     "iter_ref_field": (r"\bfor\s+(\w+)\s+in\s+&self\.(\w+)\b", r"for \1 in self.\2.iter()",
@@ -55,6 +58,8 @@ ALLOWED_SUBST = {
     "vec_range_index_mut": (r"(\bself\.\w+)\[([^\]\n]*\.\.[^\]\n]*)\]", r"\1.as_mut_slice()[\2]",
                             "`vec[a..b]` in a mutable place -> `vec.as_mut_slice()[a..b]` (std: Vec's IndexMut<Range> is "
                             "`&mut (**self)[range]`, deref_mut == as_mut_slice; vstd specifies the slice form only)"),
+    "phantom_fn": (r"PhantomData<fn\(\) -> (\w+)>", r"PhantomData<\1>",
+                   "`PhantomData<fn() -> P>` -> `PhantomData<P>` (variance marker only; Verus has no fn-pointer types)"),
     "fn_ptr_call": (r"\(self\.(\w+)\)\(", r"fnptr_call_\1(&self.\1, ",
                     "call through fn-pointer field -> mirrored call with abstract contract"),
     "plus_eq_deref": (r"\*([^;\n]*?)\?\s*\+=\s*1;", r"incr_u32(\1?);",
@@ -221,8 +226,8 @@ def _name_return(sig, sig_masked, ret, rw):
             depth -= 1
         elif ch == ">" and sig_masked[k - 1] != "-":
             depth -= 1
-        if ch == "-" and sig_masked[k + 1] == ">" and depth == 0:
-            arrow = k
+        if ch == "-" and sig_masked[k + 1] == ">" and depth == 0 and arrow < 0:
+            arrow = k   # the first depth-0 arrow is the function's own return arrow
     if arrow < 0:
         return sig
     # where clause at depth 0 after the arrow
@@ -335,6 +340,7 @@ class Expanded:
         self.rewrites = Rewrites()
         self.includes = []
         self.extracted = []     # labels of real functions under contract
+        self.novacuity = []     # labels whose `ensures false` copy is skipped (trait-impl members)
 
     def text(self):
         return "\n".join(self.lines) + "\n"
@@ -346,9 +352,24 @@ class Expanded:
         return None
 
 
-def expand(template_path):
+def _load_template(template_path, depth=0):
+    """Template lines with `//@use <fragment>` expanded recursively (fragments may contain directives)."""
+    if depth > 5:
+        raise AnchorError("//@use nesting too deep")
+    out = []
     with open(template_path) as fh:
-        tl = fh.read().split("\n")
+        for line in fh.read().split("\n"):
+            if line.strip().startswith("//@use "):
+                rel = line.strip()[len("//@use "):].strip()
+                out.append(f"// ---- contracts from {rel}")
+                out.extend(_load_template(os.path.join(VERIF, rel), depth + 1))
+            else:
+                out.append(line)
+    return out
+
+
+def expand(template_path):
+    tl = _load_template(template_path)
     ex = Expanded()
     i = 0
     while i < len(tl):
@@ -362,9 +383,21 @@ def expand(template_path):
                 ex.lines.append(f"// ---- end preamble: {rel}")
             ex.includes.append(rel)
         elif s.startswith("//@struct "):
-            f, name = [x.strip() for x in s[len("//@struct "):].split("::", 1)]
+            parts = [x.strip() for x in s[len("//@struct "):].split(" :: ")]
+            f, name = parts[0], parts[1]
             ex.lines.append(f"// ---- extracted verbatim: {f} :: {name}")
-            ex.lines.extend(extract_struct(f, name, ex.rewrites).split("\n"))
+            stext = extract_struct(f, name, ex.rewrites)
+            for o in parts[2:]:
+                if o.startswith("subst="):
+                    key = o[len("subst="):]
+                    if key not in ALLOWED_SUBST:
+                        raise AnchorError(f"substitution {key!r} is not in the closed list")
+                    rx, rep, note = ALLOWED_SUBST[key]
+                    stext, n = re.subn(rx, rep, stext)
+                    if n == 0:
+                        raise AnchorError(f"struct {name}: substitution {key!r} did not apply")
+                    ex.rewrites.add("subst:" + key, note, n)
+            ex.lines.extend(stext.split("\n"))
         elif s.startswith("//@implhdr "):
             parts = [x.strip() for x in s[len("//@implhdr "):].split(" :: ")]
             f, hdr = parts[0], parts[1]
@@ -420,6 +453,8 @@ def expand(template_path):
             ex.lines.append(f"// ---- extracted verbatim: {f} :: {hdr} :: fn {name}")
             ex.lines.extend(text.split("\n"))
             ex.fn_spans.append((first, len(ex.lines), label, f"{f}::{hdr}::{name}"))
+            if opts.get("novacuity"):
+                ex.novacuity.append(label)
             ex.extracted.append(label)
         else:
             ex.lines.append(line)
